@@ -18,6 +18,7 @@
 package pqmr
 
 import (
+	"encoding/binary"
 	"fmt"
 	"io"
 	"os"
@@ -289,6 +290,13 @@ func ReadPqmr(fname *string) (*SegmentPQMRResults, error) {
 			break
 		}
 		offset += int64(bsSize)
+
+		// The serialized bitset starts with its length in bits; UnmarshalBinary allocates
+		// that many bits before it reads them, so a damaged length must not get there.
+		if bsSize < 8 || binary.BigEndian.Uint64(bsBlk[:8]) > uint64(bsSize-8)*8 {
+			log.Errorf("ReadPqmr: bitset length does not fit its %v stored bytes, blkNum=%v, fname=%v", bsSize, blkNum, *fname)
+			return nil, fmt.Errorf("ReadPqmr: malformed bitset for blkNum=%v", blkNum)
+		}
 
 		bs := bitset.New(0)
 		err = bs.UnmarshalBinary(bsBlk[:bsSize])
